@@ -2,6 +2,7 @@
 #![allow(clippy::all)]
 
 pub mod c08;
+pub mod c15;
 pub mod chooser;
 pub mod io;
 pub mod json;
@@ -17,6 +18,7 @@ use runner::{Scenario, Tier};
 pub fn scenario_for(pid: &str) -> Option<&'static dyn Scenario> {
     Some(match pid {
         "C08" => &c08::C08,
+        "C15" => &c15::C15,
         _ => return None,
     })
 }
